@@ -178,7 +178,7 @@ def scripts(rng, vtag, all_metrics, order, n_noise):
         for q in order:
             k = rng.random()
             if k < 0.15:
-                ans.extend(rng.choice(DLG.JUNK) for _ in range(rng.randint(1, 3)))
+                ans.extend(DLG.junk(rng) for _ in range(rng.randint(1, 3)))
             elif k < 0.25:
                 if nd not in T.VALUES[ver][q]:
                     ans.append("")  # empty answer on a mandatory metric: must be rejected
@@ -209,6 +209,10 @@ def scripts(rng, vtag, all_metrics, order, n_noise):
     yield [], None
     yield [""] * (len(order) * 3), None
     yield ["?"] * 50, None
+    # one rejected answer of every boundary length (a pasted digest, a long line of dashes), then the right answers
+    for n in DLG.JUNK_LENGTHS:
+        i = rng.randrange(len(order))
+        yield [legal(q) for q in order[:i]] + [DLG.long_junk(rng, n)] + [legal(q) for q in order[i:]], None
     # a user (or a pipe) that keeps giving the same wrong answer for a long time, then answers properly
     yield ["?"] * 1500 + [legal(q) for q in order], None
     yield [legal(order[0])] + ["zz"] * 1200 + [legal(q) for q in order[1:]], None
